@@ -63,13 +63,13 @@ Theorem C08_n : forall c glen ms kept dropped, partition c glen ms = Ok (kept, d
 Proof. exact c08_n. Qed.
 Print Assumptions C08_n.
 
-(* Rank: if top/bottom occur at most as the last priority, there is an ordering of the sub-groups
-   that is a permutation of the report order, strictly sorted by the lexicographic reading of the
-   priority list (first priority most significant, ties by report order, `top` = reversed report
-   order) - hence unique -, and the dropped sub-groups are exactly the droppable ones that are not
-   among the first (max 1 n - #forced-kept) droppable ones in that order. *)
+(* Rank, for EVERY priority list: there is an ordering of the sub-groups that is a permutation of the report
+   order, strictly sorted by the lexicographic reading of the priority list ([lex_lt]: first priority most
+   significant; `top` = reversed report order and `bottom` = report order decide everything, so the priorities
+   listed after the first of them do not matter; report position is the final tie-break) - hence unique -, and the
+   dropped sub-groups are exactly the droppable ones that are not among the first (max 1 n - #forced-kept)
+   droppable ones in that order. *)
 Theorem C08_rank : forall c glen ms kept dropped, partition c glen ms = Ok (kept, dropped) ->
-  tb_last (prio c) ->
   exists order : list (nat * sub),
     Permutation order (indexed (subgroups c (survivors c glen ms))) /\
     StronglySorted (lex_lt (prio c)) order /\
@@ -87,15 +87,12 @@ Theorem C08_rank_unique : forall c glen ms k1 d1 k2 d2 o1 o2,
 Proof. exact rank_order_unique. Qed.
 Print Assumptions C08_rank_unique.
 
-(* K9 (known finding, not fixed): with `top` in front of another priority the code's result is NOT
-   the lexicographic reading.  Group a, b, c (report order) created in the order c, b, a;
-   --priority top --priority newest: the code keeps a, the lexicographic reading keeps c. *)
-Theorem C08_K9_witness :
-  ~ tb_last (prio k9_cfg) /\
-  exists kept dropped, partition k9_cfg 4 k9_group = Ok (kept, dropped) /\
-    ~ exists order, rank_spec k9_cfg 4 k9_group kept dropped order.
-Proof. exact c08_k9_witness. Qed.
-Print Assumptions C08_K9_witness.
+(* K9 (repaired by /repo 7054be1): group a, b, c (report order) created in the order c, b, a;
+   --priority top --priority newest now keeps c and drops b, a - the lexicographic reading (the code used to keep a). *)
+Example C08_K9_regression :
+  partition k9_cfg 4 k9_group = Ok ([k9_file 99 12 10], [k9_file 98 11 20; k9_file 97 10 30]) /\
+  exists order, rank_spec k9_cfg 4 k9_group [k9_file 99 12 10] [k9_file 98 11 20; k9_file 97 10 30] order.
+Proof. exact c08_k9_regression. Qed.
 
 (* The model of run_dedupe's merge of the recorded `group` configuration equals passing the same
    options explicitly; options given on the dedupe command line win (or are or-ed). *)
@@ -140,26 +137,22 @@ Print Assumptions C08_dedupe_group.
 
 (* ------------------------------------------------------------------ non-vacuity *)
 (* a group with a hard-link pair, an isolated root, a keep pattern and n = 2 in which something is
-   dropped and something is force-kept; priorities newest then top (top last: C08_rank applies) *)
+   dropped and something is force-kept; priorities newest, top, oldest (what follows top is ignored) *)
 Definition ex_p (r f : N) : path := [[47%N]; [r]; [f]].
 Definition ex_m (r f ino : N) (bt : Z) : meta :=
   mkMeta (ex_p r f) 1 ino 4 true (Some 100%Z) (Some 100%Z) (Some bt) (7%Z, 0%Z).
 Definition ex_cfg : dcfg :=
   mkCfg (Some 2) (fun p => match p with [_; _; [107%N]] => true | _ => false end) (fun _ => true)
-        [[[47%N]; [49%N]]] false false (Some 500%Z) [Newest; Top].
+        [[[47%N]; [49%N]]] false false (Some 500%Z) [Newest; Top; Oldest].
 Definition ex_group : list meta :=
   [ex_m 48 97 10 30; ex_m 48 98 10 30; ex_m 49 99 11 20; ex_m 49 100 12 10; ex_m 50 107 13 5; ex_m 50 101 14 40;
    ex_m 50 102 15 40].
 Example C08_premises_inhabited :
   exists kept dropped, partition ex_cfg 4 ex_group = Ok (kept, dropped) /\ dropped <> [] /\
-    tb_last (prio ex_cfg) /\ length (subgroups ex_cfg (survivors ex_cfg 4 ex_group)) = 5 /\
+    length (subgroups ex_cfg (survivors ex_cfg 4 ex_group)) = 5 /\
     exists g, In g (subgroups ex_cfg (survivors ex_cfg 4 ex_group)) /\ forced ex_cfg g = true.
 Proof.
-  eexists _, _. split; [vm_compute; reflexivity|]. split; [discriminate|]. split; [|split].
-  - intros i p Hn Hp. destruct i as [|[|i]]; cbn in Hn.
-    + injection Hn as <-. discriminate.
-    + reflexivity.
-    + destruct i; discriminate.
+  eexists _, _. split; [vm_compute; reflexivity|]. split; [discriminate|]. split.
   - vm_compute. reflexivity.
   - exists [ex_m 50 107 13 5]. split; [vm_compute; tauto|vm_compute; reflexivity].
 Qed.
